@@ -14,48 +14,92 @@ structure MFile where
   data : Bytes
   deriving Repr, DecidableEq
 
-def u64Mod : Nat := 2 ^ 64
-def i64Min : Int := -(2 ^ 63)
-def i64Max : Int := 2 ^ 63 - 1
-
-/-- `x as i64` for a `u64` -/
-def asI64 (x : Nat) : Int := if x % u64Mod < 2 ^ 63 then (x % u64Mod : Nat) else (x % u64Mod : Nat) - (2 ^ 64 : Int)
-/-- `x as u64` for an `i64` -/
-def asU64 (x : Int) : Nat := (x % (2 ^ 64 : Int)).toNat
-
-/-- `MemfsFile::len`: `data.len() as u64 - pos`; `none` = subtract-with-overflow panic. -/
-def len (f : MFile) : Option Nat := if f.pos ≤ f.data.length then some (f.data.length - f.pos) else none
+/-- `MemfsFile::len`: `(data.len() as u64).saturating_sub(pos)` -/
+def len (f : MFile) : Nat := f.data.length - f.pos
 
 /-- `Read::read` with a buffer of `n` bytes: returns the bytes copied and the new handle. -/
-def read (f : MFile) (n : Nat) : Outcome (Bytes × MFile) :=
-  match len f with
-  | none => .panic
-  | some l =>
-    let k := min n l
-    .ok ((f.data.drop f.pos).take k, { f with pos := f.pos + k })
+def read (f : MFile) (n : Nat) : Bytes × MFile :=
+  let k := min n (len f)
+  if k = 0 then ([], f) else ((f.data.drop f.pos).take k, { f with pos := f.pos + k })
 
 inductive Whence where
   | start | current | endw
   deriving DecidableEq, Repr
 
-/-- `Seek::seek`; `offset` is a `u64` for `Start` and an `i64` otherwise. Returns the new position. -/
+/-- `Seek::seek`; `offset` is a `u64` for `Start` and an `i64` otherwise (`checked_add_signed`).
+    Returns the new position. -/
 def seek (f : MFile) (w : Whence) (off : Int) : Outcome (Nat × MFile) :=
   match w with
   | .start => .ok (off.toNat, { f with pos := off.toNat })
   | .current =>
-    let s := asI64 f.pos + off
-    if s < i64Min ∨ s > i64Max then .panic else .ok (asU64 s, { f with pos := asU64 s })
+    let s : Int := f.pos + off
+    if s < 0 ∨ s ≥ 2 ^ 64 then .err .ioInvalidInput else .ok (s.toNat, { f with pos := s.toNat })
   | .endw =>
-    let s := asI64 f.data.length + off
-    if s < i64Min ∨ s > i64Max then .panic else .ok (asU64 s, { f with pos := asU64 s })
+    let s : Int := f.data.length + off
+    if s < 0 ∨ s ≥ 2 ^ 64 then .err .ioInvalidInput else .ok (s.toNat, { f with pos := s.toNat })
 
 /-- `Write::write`: `Vec::write` appends, position untouched. -/
 def write (f : MFile) (buf : Bytes) : Nat × MFile := (buf.length, { f with data := f.data ++ buf })
 
 /-- default `Read::read_to_end`: repeated `read` until 0 — everything from `pos`. -/
-def readToEnd (f : MFile) : Outcome (Bytes × MFile) :=
-  match len f with
-  | none => .panic
-  | some l => .ok (f.data.drop f.pos, { f with pos := f.pos + l })
+def readToEnd (f : MFile) : Bytes × MFile := (f.data.drop f.pos, { f with pos := f.pos + len f })
+
+end Rivia.File
+
+namespace Rivia.File
+
+/-- operations on a read handle and what the caller observes -/
+inductive HOp where
+  | read (n : Nat) | readAll | seek (w : Whence) (off : Int)
+  deriving Repr, DecidableEq
+
+inductive Obs where
+  | bytes (b : Bytes) | pos (p : Nat) | err (k : ErrKind)
+  deriving Repr, DecidableEq
+
+def runOps : MFile → List HOp → List Obs
+  | _, [] => []
+  | f, .read n :: ops => let (b, f') := read f n; .bytes b :: runOps f' ops
+  | f, .readAll :: ops => let (b, f') := readToEnd f; .bytes b :: runOps f' ops
+  | f, .seek w o :: ops =>
+    match seek f w o with
+    | .ok (p, f') => .pos p :: runOps f' ops
+    | .err k => .err k :: runOps f ops
+    | _ => []
+
+/-- A handle returned by `write` / `append`: the bytes it carries (`data`); `write` starts empty,
+    `append` starts from a clone of the stored content (its position is irrelevant: `Vec::write`
+    appends). `sync` (on `flush` and on `Drop`) replaces the stored content by `data` when the
+    entry still exists. -/
+structure WHandle where
+  data : Bytes
+  deriving Repr, DecidableEq
+
+def openWrite (_stored : Bytes) : WHandle := ⟨[]⟩
+def openAppend (stored : Bytes) : WHandle := ⟨stored⟩
+def WHandle.write (h : WHandle) (chunk : Bytes) : WHandle := ⟨h.data ++ chunk⟩
+/-- stored content after `flush` / `drop` -/
+def WHandle.sync (h : WHandle) (_stored : Bytes) : Bytes := h.data
+
+inductive WOp where
+  | write (chunk : Bytes) | flush
+  deriving Repr, DecidableEq
+
+/-- run ops on a handle; returns the handle and the stored content -/
+def runW : WHandle → Bytes → List WOp → WHandle × Bytes
+  | h, st, [] => (h, st)
+  | h, st, .write c :: ops => runW (h.write c) st ops
+  | h, st, .flush :: ops => runW h (h.sync st) ops
+
+/-- the whole life of a handle: open, ops, drop (= sync) -/
+def writeSession (append : Bool) (stored : Bytes) (ops : List WOp) : Bytes :=
+  let h0 := if append then openAppend stored else openWrite stored
+  let (h, st) := runW h0 stored ops
+  h.sync st
+
+def chunksOf : List WOp → Bytes
+  | [] => []
+  | .write c :: ops => c ++ chunksOf ops
+  | .flush :: ops => chunksOf ops
 
 end Rivia.File
